@@ -112,6 +112,19 @@ func eval(c Case) *pbt.Fail {
 						dropped++
 					}
 				}
+				// a dimension beyond 16 bits (the reported field is a uint16): a recorded finding exactly when nothing else differs
+				big := func(p *uint32) bool { return p != nil && *p > 65535 }
+				if big(c.Rec.Width) || big(c.Rec.Height) || big(c.Rec.PixelX) || big(c.Rec.PixelY) {
+					only := true
+					for _, d := range diffs {
+						if !strings.HasPrefix(d, "ImageWidth") && !strings.HasPrefix(d, "ImageHeight") {
+							only = false
+						}
+					}
+					if only {
+						return pbt.Failf("dimension-over-16-bits", "%s(%s): %s", entry, enc.name, strings.Join(diffs, "; "))
+					}
+				}
 				// exposure compensation whose reduced fraction does not fit the 8-bit numerator / denominator of meta.ExposureBias
 				if c.Rec.Bias != nil && len(diffs) == 1 && strings.HasPrefix(diffs[0], "ExposureBias") {
 					n, d := int64(c.Rec.Bias[0]), int64(c.Rec.Bias[1])
@@ -173,6 +186,7 @@ var chkHeavy = pbt.Check[Case]{Name: "record-roundtrip-consumed-plus-pending", E
 var chkMany = pbt.Check[Case]{Name: "record-roundtrip-entry-limit", Eval: eval, Gen: genWith(gen.Options{Unbuffered: true, ManyEntries: true}, "")}
 var chkManyBuf = pbt.Check[Case]{Name: "record-roundtrip-entry-limit-buffered", Eval: eval, Gen: genWith(gen.Options{ManyEntries: true}, "")}
 var chkBias = pbt.Check[Case]{Name: "record-roundtrip-camera-bias", Eval: eval, Gen: genWith(gen.Options{Unbuffered: true, CameraBias: true, MaxForeign: 2}, "")}
+var chkDims = pbt.Check[Case]{Name: "record-roundtrip-big-dimensions", Eval: eval, Gen: genWith(gen.Options{Unbuffered: true, BigDims: true, MaxForeign: 2}, "")}
 var chkArr = pbt.Check[Case]{Name: "record-roundtrip-out-of-line-arrays", Eval: eval, Gen: genWith(gen.Options{Unbuffered: true, Arrays: true, MaxForeign: 3}, "")}
 var chkLong = pbt.Check[Case]{Name: "record-roundtrip-long-text", Eval: eval, Gen: genWith(gen.Options{Unbuffered: true, LongText: true, MaxForeign: 2}, "")}
 var chkSub = pbt.Check[Case]{Name: "record-roundtrip-ext-subsec", Eval: eval, Gen: genWith(gen.Options{Unbuffered: true, ExtSubSecDigits: true}, "subsec-digits")}
@@ -187,6 +201,7 @@ func init() {
 	pbt.Register(chkLong)
 	pbt.Register(chkArr)
 	pbt.Register(chkBias)
+	pbt.Register(chkDims)
 }
 
 func TestProp(t *testing.T) {
@@ -239,6 +254,9 @@ func TestProp(t *testing.T) {
 		return
 	}
 	if !pbt.Run(t, rec, chkManyBuf, rec.Env.Pick(300, 6000), 6) {
+		return
+	}
+	if !pbt.Run(t, rec, chkDims, rec.Env.Pick(200, 4000), 10) {
 		return
 	}
 	if !pbt.Run(t, rec, chkBias, rec.Env.Pick(400, 8000), 9) {
